@@ -38,10 +38,14 @@ bool GaussianPrediction::skip(const std::string& what_step, const bool status)
     {
         getStateModel().skip("state", status);
 
-        skip_ = getStateModel().is_skipping() & getStateModel().exogenous_model().is_skipping();
+        /* Without an exogenous model the prediction reduces to the state model alone. */
+        skip_ = getStateModel().is_skipping() & (!getStateModel().have_exogenous_model() || getStateModel().exogenous_model().is_skipping());
     }
     else if (what_step == "exogenous")
     {
+        if (!getStateModel().have_exogenous_model())
+            return false;
+
         getStateModel().skip("exogenous", status);
 
         skip_ = getStateModel().is_skipping() & getStateModel().exogenous_model().is_skipping();
